@@ -199,7 +199,7 @@ def run(tier):
     import C13
     for _ in range(100 if quick else 4000):
         scen.append(C13.having_scen(rng, ["like", "notnull", "isnull", "like_and_notnull", "notnull_and_like"], ["a%", "%b", "a_", "%", "%a%", "a%b", "_"]))
-    seqfam.run_scenarios(res, scen, "TracePostAgg", tag="postagg", relayout_p=0.3, retype_p=0.3)
+    seqfam.run_scenarios(res, scen, "TracePostAgg", tag="postagg", relayout_p=0.3, retype_p=0.3, rename_p=0.3)
     seqfam.run_pinned(res, "TracePostAgg")
     res.cov["exhaustive"] = False
     res.cov["distinct_nontrivial"] = len({s["sql"] for s in scen})
